@@ -72,3 +72,78 @@ def reachable(g, roots):
         seen.add(n)
         st.extend(g.get(n, ()))
     return seen
+
+
+def typed_reachable(crate, roots):
+    """Reachability over the crate's own functions with the instantiation carried along: a function is visited once
+    per binding of its type parameters, and a call of a local trait's method on a type parameter that the binding
+    makes concrete goes to the impl for that type only (`scan::<R6rs>` does not reach `<Elisp as Scan>::escape`).
+    Where the binding says nothing the call goes to every local impl, as in build_graph."""
+    by_path = {f.path: f for f in crate.fns}
+    impls = {}
+    for f in crate.fns:
+        if f.impl_trait and f.kind == "assoc":
+            impls.setdefault((f.impl_trait, f.path.rsplit("::", 1)[1]), []).append(f)
+        if f.d.get("in_trait"):
+            impls.setdefault((f.d["in_trait"], f.path.rsplit("::", 1)[1]), []).append(f)
+    seen = set()
+    work = [(r, ()) for r in roots if r in by_path]
+    while work:
+        p, envt = work.pop()
+        if (p, envt) in seen:
+            continue
+        seen.add((p, envt))
+        f = by_path[p]
+        env = dict(envt)
+        for bi, t in f.calls():
+            c = t["callee"]
+            tgt = None
+            if c.get("resolved") and c.get("resolved_crate") == crate.name:
+                tgt = c["resolved"]
+            elif c.get("crate") == crate.name and "trait" not in c:
+                tgt = c.get("path")
+            if tgt and tgt in by_path:
+                g = by_path[tgt]
+                work.append((tgt, _bind(g, c, env, envt)))
+                continue
+            tr = c.get("trait")
+            if tr and "resolved" not in c and c.get("crate") == crate.name:
+                cands = impls.get((tr, c.get("method")), [])
+                subs = c.get("substs") or []
+                conc = env.get(subs[0], subs[0]) if subs else None
+                exact = [g for g in cands if g.self_ty == conc and not g.d.get("in_trait")]
+                for g in (exact if len(exact) == 1 else cands):
+                    work.append((g.path, ()))
+        for b in f.blocks:
+            for s in b["stmts"]:
+                if s["k"] != "assign":
+                    continue
+                if s["rv"]["k"] == "agg" and s["rv"].get("agg") == "closure" and s["rv"]["closure"] in by_path:
+                    work.append((s["rv"]["closure"], envt))
+                for op in _operands(s["rv"]):
+                    if op.get("c") == "const" and op.get("fn") in by_path:
+                        work.append((op["fn"], ()))
+            t = b["term"]
+            if t["k"] == "call":
+                for a in t["args"]:
+                    if a.get("c") == "const" and a.get("fn") in by_path:
+                        work.append((a["fn"], ()))
+    return {p for p, _ in seen}
+
+
+def _bind(g, c, env, envt):
+    """The callee's type parameters as this call site (under the caller's binding) instantiates them."""
+    if g.kind == "closure":
+        return envt
+    gens = g.d.get("generics")
+    subs = c.get("substs")
+    if not gens or not subs or len(gens) != len(subs):
+        return ()
+    out = {}
+    for gp, sv in zip(gens, subs):
+        if gp.startswith("'"):
+            continue
+        sv = env.get(sv, sv)
+        if sv != gp:
+            out[gp] = sv
+    return tuple(sorted(out.items()))
